@@ -2,7 +2,7 @@
 # tools/confirm_mutant.sh <PID> <i>   — confirm a sub-agent's seeded change in its scratch worktree:
 #   with the patch: workspace compiles, the existing suite passes, the demo fails; without: the demo passes.
 # Writes /tmp/mw/<PID>/mutants/m<i>.confirm.json
-PID=$1; I=$2; D=/tmp/mw/$PID; M=$D/mutants
+PID=$1; I=$2; D=${MW:-/tmp/mw2}/$PID; M=$D/mutants
 export CARGO_NET_OFFLINE=true CARGO_BUILD_JOBS=6
 cd "$D" || exit 2
 git checkout -q -- . 2>/dev/null
